@@ -50,6 +50,29 @@ impl Default for Scalar {
 }
 
 impl Scalar {
+    // inherent arithmetic of the real crate (mirrors the operator impls)
+    pub fn add(&self, rhs: &Scalar) -> Scalar {
+        *self + *rhs
+    }
+    pub fn sub(&self, rhs: &Scalar) -> Scalar {
+        *self - *rhs
+    }
+    pub fn mul(&self, rhs: &Scalar) -> Scalar {
+        *self * *rhs
+    }
+    pub fn neg(&self) -> Scalar {
+        -*self
+    }
+    pub fn pow(&self, by: &[u64; 4]) -> Scalar {
+        Field::pow_vartime(self, by)
+    }
+    pub fn pow_vartime(&self, by: &[u64; 4]) -> Scalar {
+        Field::pow_vartime(self, by)
+    }
+    pub fn invert(&self) -> CtOption<Scalar> {
+        Field::invert(self)
+    }
+
     pub const fn zero() -> Scalar {
         Scalar { tag: 0, l: [0; 4] }
     }
@@ -343,6 +366,22 @@ macro_rules! group_impl {
             }
             pub fn eq_f(&self, o: &Self) -> F {
                 self.0.eq_f(&o.0)
+            }
+            // rest of the inherent API of the real crate (so that a change to the code under test that uses it still builds)
+            pub fn add(&self, rhs: &$P) -> $P {
+                $P(self.0 + rhs.0)
+            }
+            pub fn add_mixed(&self, rhs: &$A) -> $P {
+                $P(self.0 + rhs.0)
+            }
+            pub fn batch_normalize(p: &[Self], q: &mut [$A]) {
+                assert_eq!(p.len(), q.len());
+                for (a, b) in p.iter().zip(q.iter_mut()) {
+                    *b = $A(a.0);
+                }
+            }
+            pub fn is_on_curve(&self) -> Choice {
+                Choice::from(1)
             }
         }
         impl $A {
